@@ -86,6 +86,8 @@ def features(case) -> list[str]:
                 f.add("static-lessthan")
         if n["t"] == "lt" and not static_lt(n):
             f.add("lessthan-variable-times")
+        if n["t"] == "lt" and any(x["t"] == "lt" for c in n["ch"] for x in gen.walk(c)):
+            f.add("lessthan-under-lessthan")
         if n["t"] == "min" and all(const_ind(c) for c in n["ch"]):
             f.add("constant-utility-term")
         if n["t"] == "scale" and n["disregard"] and n["f"] != 0 and const_ind(n["ch"][0]):
@@ -162,6 +164,20 @@ CORPUS = [
     ("lt-over-max-three", mk([{"t": "lt", "name": "L", "ch": [
         {"t": "max", "name": "M1", "ch": [C("T", 0, 1, u=1), C("T", 2, 1, u=1), C("T", 4, 1, u=1)]},
         {"t": "max", "name": "M2", "ch": [C("V", 0, 1, u=4), C("V", 1, 2, u=3), C("V", 3, 1, u=2), C("V", 5, 1, u=1)]}]}], P(1))),
+    # critical-path pass: a Max with options of different durations on either side of a LessThan,
+    # the other side tightening the bound, the best option being the short one next to the bound
+    ("lt-right-mixed-durations", mk([{"t": "lt", "name": "L", "ch": [
+        {"t": "max", "name": "MA", "ch": [C("TA", 0, 2, u=1)]},
+        {"t": "max", "name": "MB", "ch": [C("TB", 1, 3, u=1), C("TB", 2, 1, u=2), C("TB", 5, 1, u=1)]}]}], P(1))),
+    ("lt-left-mixed-durations", mk([{"t": "lt", "name": "L", "ch": [
+        {"t": "max", "name": "MA", "ch": [C("TA", 0, 3, u=1), C("TA", 2, 1, u=2), C("TA", 5, 1, u=1)]},
+        {"t": "max", "name": "MB", "ch": [C("TB", 3, 1, u=1)]}]}], P(1))),
+    # F8: the critical-path pass pushes `end = start + duration` into a nested LessThan
+    ("cp-nested-lessthan", mk([{"t": "lt", "name": "L2", "ch": [
+        {"t": "lt", "name": "L", "ch": [
+            {"t": "max", "name": "M0", "ch": [C("TA", 1, 1, u=6), C("TA", 3, 4, u=3)]},
+            {"t": "max", "name": "M1", "ch": [C("TB", 2, 2, u=2), C("TB", 5, 1, u=6), C("TB", 6, 2, u=1)]}]},
+        C("TC", 7, 4, u=1)]}], P(1))),
     ("scale", mk([{"t": "scale", "name": "S", "f": 3, "disregard": False, "ch": [C("A", 0, 1, u=2)]},
                   {"t": "scale", "name": "S2", "f": 2, "disregard": True, "ch": [{"t": "min", "name": "N", "ch": [C("B", 0, 1), C("D", 1, 1)]}]}], P(1))),
     ("coarse-aligned", mk([C("A", 0, 3, u=2), C("B", 2, 2, u=3), C("D", 4, 1, u=1)], P(1), gran=2)),
@@ -401,10 +417,17 @@ def run(chk: common.Check):
     for k in range(0, n_rand, 200):
         b.run(rng.sub(f"rand{k}"), gen_cases(rng.sub(f"gen{k}"), min(200, n_rand - k)), chk.tier)
     # 3. random trees with every subset of passes (differential test of the unmodelled passes)
-    n_pass = 50 if quick else 600
+    n_pass = 40 if quick else 600
     for k in range(0, n_pass, 100):
         cs = [(f"pass-{k}-{i}", c) for i, (_, c) in enumerate(gen_cases(rng.sub(f"pgen{k}"), min(100, n_pass - k), only=("aligned", "unaligned")))]
         b.run(rng.sub(f"pass{k}"), cs, chk.tier, passes_list=(0, 1, 2, 3, 4, 7))
+    # 4. the LessThan-over-Max family with mixed durations (what the critical-path pass reasons about)
+    n_fam = 40 if quick else 400
+    for k in range(0, n_fam, 100):
+        fr = rng.sub(f"fam{k}")
+        cs = [(f"ltfam-{k}-{i}", gen.lt_family(fr.sub(str(i)))) for i in range(min(100, n_fam - k))]
+        b.run(rng.sub(f"famrun{k}"), cs, chk.tier, passes_list=(0, 1, 3))
+        chk.count("family:lt-over-max-mixed-durations", len(cs))
     for sig, rep in b.findings:
         chk.violation(sig, rep)
     chk.extra["suite_s"] = round(time.time() - t0, 1)
